@@ -24,6 +24,9 @@ var M = &run.Monitor{
 		"(e) the closed list of documented misuse panics, provoked and recovered. (g) a caller-held Encoder/Decoder used again (5 continuation scripts) after MarshalEncode/UnmarshalDecode " +
 		"failed or succeeded inside an object: 2 sides x coder AllowDuplicateNames {unset,true,false} x per-call {none,true,false,V1,V2} x 8 value shapes x 7-9 failure kinds. (f) hostile sweep: generated+mutated texts, random encoder call scripts and random " +
 		"reflect-built Go values through the whole public API of json, jsontext and v1 under random options, readers and writers, panic/termination monitor only. " +
+		"(a') at depth 10000/10001 the innermost empty container of the Go value is one of 6 typed ones (zero-length array, typed slice/map, field-less struct, pointers). " +
+		"(h) bounded progress with hostile user unmarshal code. (i) error formatting: 12 fault kinds provoked below paths of hostile member names (empty, 40-130 bytes, multi-byte so that a cut " +
+		"falls inside a rune, escaped '/' and '~', ill-formed UTF-8); every error and every wrapped error is formatted (%v %+v %q Error()) and its JSON Pointer taken apart. " +
 		"distinct = (family, path, tower shape) for a-d; token-kind skeleton of the text / call skeleton of the script / Go type for f",
 	Assumptions: []string{
 		"the depth limit 10000 is taken from the property statement; depth of a tower is known by construction and cross-checked by an independent bracket counter",
@@ -61,6 +64,10 @@ var M = &run.Monitor{
 		need("reuse_reuse_after_failed_percall_dupnames", 50)
 		need("reuse_reuse_after_successful_call", 50)
 		need("reuse_calls_on_reused_coder", 2000)
+		need("errtext_errors_formatted", 10000)
+		need("errtext_pointer_over_100_bytes", 2000)
+		need("errtext_pointer_ends_in_slash", 1000)
+		need("errtext_messages_with_shortened_pointer", 1000)
 		return u
 	},
 	SelfTest: selfTest,
@@ -145,6 +152,7 @@ func main() {
 	run.Def(M, "sweep", runSweep)
 	run.Def(M, "reuse-after-failed-call", runReuse)
 	run.Def(M, "progress", runProgress)
+	run.Def(M, "errtext", runErrtext)
 	M.Gen = generate
 	debug.SetGCPercent(400) // towers allocate tens of MB per path; trade memory (well below 2 GB) for GC time
 	if f := os.Getenv("C20_CPUPROFILE"); f != "" { // diagnostics for harness development only
@@ -209,6 +217,17 @@ func generate(w *run.W) {
 					if w.WantSample() && d == 10001 {
 						w.Sample(map[string]any{"exec": "tower", "args": a})
 					}
+				}
+			}
+		}
+	}
+
+	// (a') typed innermost containers of the Go value at the limit
+	for _, mix := range mixes {
+		for _, d := range []int{maxDepth, maxDepth + 1} {
+			for leaf := 1; leaf <= nLeaves; leaf++ {
+				if mine() {
+					w.Do("tower", &towerArgs{Depth: d, Mix: mix, Inner: "empty", Sib: (leaf+d)%2 == 0, Leaf: leaf})
 				}
 			}
 		}
@@ -311,6 +330,9 @@ func generate(w *run.W) {
 
 	// (h) bounded progress with hostile user unmarshal code
 	genProgress(w, mine)
+
+	// (i) formatting of errors below hostile paths
+	genErrtext(w, mine)
 
 	// (f) hostile sweep
 	type sweepPlan struct {
